@@ -35,6 +35,50 @@ nextKeyAsSet(SetIteration *i)
 }
 #endif
 
+/* Return a new sorted list of the distinct items of the iterable s:  the set
+ * algorithms need their inputs sorted *and* free of duplicates (a repeated
+ * key would be copied to the output as often as it occurs).
+ */
+static PyObject *
+sorted_unique_list(PyObject *s)
+{
+    PyObject *list, *result;
+    Py_ssize_t i, n;
+
+    list = PySequence_List(s);
+    UNLESS(list) return NULL;
+    if (PyList_Sort(list) == -1) {
+        Py_DECREF(list);
+        return NULL;
+    }
+    n = PyList_GET_SIZE(list);
+    result = PyList_New(0);
+    if (result == NULL) {
+        Py_DECREF(list);
+        return NULL;
+    }
+    for (i = 0; i < n; i++) {
+        PyObject *item = PyList_GET_ITEM(list, i);
+        if (i > 0) {
+            int eq = PyObject_RichCompareBool(PyList_GET_ITEM(list, i - 1),
+                                              item, Py_EQ);
+            if (eq < 0)
+                goto Error;
+            if (eq)
+                continue;
+        }
+        if (PyList_Append(result, item) < 0)
+            goto Error;
+    }
+    Py_DECREF(list);
+    return result;
+
+Error:
+    Py_DECREF(list);
+    Py_DECREF(result);
+    return NULL;
+}
+
 static int nextGenericKeyIter(SetIteration* i)
 {
     PyObject* next = NULL;
@@ -175,12 +219,8 @@ initSetIteration(SetIteration *i, PyObject *s, int useValues)
            sort it. If this raises a TypeError, let that propagate. */
         /* Error detection on types is moved to the next() call. */
         /* This is slower, but very convenient.  */
-        PyObject* list = PySequence_List(s);
+        PyObject* list = sorted_unique_list(s);
         UNLESS(list) return -1;
-        if (PyList_Sort(list) == -1) {
-            Py_DECREF(list);
-            return -1;
-        }
         /* The reference to the iterater will keep the list alive */
         i->set = PyObject_GetIter(list);
         Py_DECREF(list);
